@@ -44,33 +44,15 @@ impl FixtureDatabase {
     #[allow(clippy::only_used_in_recursion)]
     pub(crate) fn contains_yield(&self, body: &[Stmt]) -> bool {
         for stmt in body {
+            // A yield anywhere in the statement's own expressions: `yield value`,
+            // `x = yield value`, `return (yield)`, `print((yield value))`, `if (yield): ...`
+            if Self::direct_expressions(stmt)
+                .into_iter()
+                .any(|expr| Self::first_yield_offset_in_expr(expr).is_some())
+            {
+                return true;
+            }
             match stmt {
-                Stmt::Expr(expr_stmt) => {
-                    if let Expr::Yield(_) | Expr::YieldFrom(_) = &*expr_stmt.value {
-                        return true;
-                    }
-                }
-                // `x = yield value`, `x: T = yield value`, `x += yield value`, `return (yield)`
-                Stmt::Assign(assign) => {
-                    if let Expr::Yield(_) | Expr::YieldFrom(_) = &*assign.value {
-                        return true;
-                    }
-                }
-                Stmt::AnnAssign(ann_assign) => {
-                    if let Some(Expr::Yield(_) | Expr::YieldFrom(_)) = ann_assign.value.as_deref() {
-                        return true;
-                    }
-                }
-                Stmt::AugAssign(aug_assign) => {
-                    if let Expr::Yield(_) | Expr::YieldFrom(_) = &*aug_assign.value {
-                        return true;
-                    }
-                }
-                Stmt::Return(ret) => {
-                    if let Some(Expr::Yield(_) | Expr::YieldFrom(_)) = ret.value.as_deref() {
-                        return true;
-                    }
-                }
                 Stmt::If(if_stmt) => {
                     if self.contains_yield(&if_stmt.body) || self.contains_yield(&if_stmt.orelse) {
                         return true;
@@ -142,6 +124,49 @@ impl FixtureDatabase {
             }
         }
         false
+    }
+
+    /// Offset of the first `yield` / `yield from` (in source order) anywhere inside an
+    /// expression. A lambda is a scope of its own and is not entered.
+    pub(crate) fn first_yield_offset_in_expr(expr: &Expr) -> Option<usize> {
+        fn first<'a>(exprs: impl IntoIterator<Item = &'a Expr>) -> Option<usize> {
+            exprs
+                .into_iter()
+                .filter_map(FixtureDatabase::first_yield_offset_in_expr)
+                .min()
+        }
+        match expr {
+            Expr::Yield(e) => Some(e.range.start().to_usize()),
+            Expr::YieldFrom(e) => Some(e.range.start().to_usize()),
+            Expr::BoolOp(e) => first(&e.values),
+            Expr::NamedExpr(e) => first([&*e.target, &*e.value]),
+            Expr::BinOp(e) => first([&*e.left, &*e.right]),
+            Expr::UnaryOp(e) => first([&*e.operand]),
+            Expr::IfExp(e) => first([&*e.test, &*e.body, &*e.orelse]),
+            Expr::Dict(e) => first(e.keys.iter().flatten().chain(&e.values)),
+            Expr::Set(e) => first(&e.elts),
+            Expr::Await(e) => first([&*e.value]),
+            Expr::Compare(e) => first(std::iter::once(&*e.left).chain(&e.comparators)),
+            Expr::Call(e) => first(
+                std::iter::once(&*e.func)
+                    .chain(&e.args)
+                    .chain(e.keywords.iter().map(|k| &k.value)),
+            ),
+            Expr::FormattedValue(e) => first([&*e.value]),
+            Expr::JoinedStr(e) => first(&e.values),
+            Expr::Attribute(e) => first([&*e.value]),
+            Expr::Subscript(e) => first([&*e.value, &*e.slice]),
+            Expr::Starred(e) => first([&*e.value]),
+            Expr::List(e) => first(&e.elts),
+            Expr::Tuple(e) => first(&e.elts),
+            Expr::Slice(e) => first(
+                [&e.lower, &e.upper, &e.step]
+                    .into_iter()
+                    .flatten()
+                    .map(|bound| &**bound),
+            ),
+            _ => None,
+        }
     }
 
     /// Extract the yielded type from a Generator/Iterator type annotation.
